@@ -211,7 +211,8 @@ void free_memory_list::deallocate(void* ptr, std::size_t n) noexcept
     else
     {
         auto mem = detail::debug_fill_free(ptr, n, 0);
-        insert_impl(mem, n);
+        // allocate(n) took whole nodes, give all of them back
+        insert_impl(mem, (n / node_size_ + (n % node_size_ != 0u)) * node_size_);
     }
 }
 
@@ -508,8 +509,9 @@ void ordered_free_memory_list::deallocate(void* ptr, std::size_t n) noexcept
         deallocate(ptr);
     else
     {
-        auto mem  = detail::debug_fill_free(ptr, n, 0);
-        auto prev = insert_impl(mem, n);
+        auto mem = detail::debug_fill_free(ptr, n, 0);
+        // allocate(n) took whole nodes, give all of them back
+        auto prev = insert_impl(mem, (n / node_size_ + (n % node_size_ != 0u)) * node_size_);
 
         last_dealloc_      = static_cast<char*>(mem);
         last_dealloc_prev_ = prev;
